@@ -15,12 +15,12 @@ PROP = "C07"
 PKG = "walletx"
 
 M_CFGS = {
-    "quick": ["WalletFund_quick_core.cfg", "WalletFund_quick_rs.cfg", "WalletFund_quick_rw.cfg", "WalletFund_quick_mb.cfg"],
+    "quick": ["WalletFund_quick_core.cfg", "WalletFund_quick_rs.cfg", "WalletFund_quick_rw.cfg", "WalletFund_quick_mbq.cfg"],
     "thorough": ["WalletFund_mc_core.cfg", "WalletFund_mc_rs.cfg", "WalletFund_mc_rw.cfg", "WalletFund_quick_mb.cfg"],
 }
 R_CFGS = {
-    "quick": ["WalletFund_edges_q1.cfg", "WalletFund_edges_q2.cfg", "WalletFund_edges_q3.cfg", "WalletFund_edges_q4.cfg"],
-    "thorough": ["WalletFund_edges_q1.cfg", "WalletFund_edges_q2.cfg", "WalletFund_edges_q3.cfg", "WalletFund_edges_q4.cfg",
+    "quick": ["WalletFund_edges_q1.cfg", "WalletFund_edges_q2.cfg", "WalletFund_edges_q3.cfg", "WalletFund_edges_q4.cfg", "WalletFund_edges_q5.cfg"],
+    "thorough": ["WalletFund_edges_q1.cfg", "WalletFund_edges_q2.cfg", "WalletFund_edges_q3.cfg", "WalletFund_edges_q4.cfg", "WalletFund_edges_q5.cfg",
                  "WalletFund_edges_t3.cfg", "WalletFund_edges_t4.cfg", "WalletFund_edges_t5.cfg"],
 }
 ASSUMPTIONS = [
@@ -30,6 +30,7 @@ ASSUMPTIONS = [
     "a transaction funded from an unconfirmed output made by a transaction of the OTHER version (v1/v2) is expected to be rejected by the pool until that parent confirms (a transaction set cannot carry parents of the other version)",
     "empty (reward) blocks are only mined while no known v2 transaction spends an unconfirmed output: chain.Manager drops/refuses to rebase such transactions across a block that leaves the parent unconfirmed (pool/rebase policy, properties C05/C13)",
     "releasing or broadcasting a transaction whose reservation already lapsed while a newer request holds one of its inputs is caller misuse and not exercised; SplitUTXO may fail for any reason but must then leave no trace; RecommendedFee is an environment input (wrapper around the real chain.Manager)",
+    "store lag: the chain manager accepts k (1..8) blocks the wallet store is not fed -- empty as far as the wallet is concerned, optionally after a reorg abandoning 1-2 empty blocks the store had indexed -- then Fund*/Redistribute/SplitUTXO/Release/broadcast run and the store catches up; lag blocks that confirm pool transactions or pay the wallet, and restarts/mining during the lag, are not exercised",
     "restart = wallet closed, fresh chain.Manager over the same chain store (the pool is not persisted), wallet re-opened over the same wallet store",
     "TLC, the Go runtime and go.sia.tech/core consensus validation are trusted",
 ]
@@ -238,6 +239,9 @@ def out_sig(kind, o):
         missing = set(want.get("list", [])) - set(ev["list"])
         if extra and not missing and extra <= set(want.get("v2spent", [])):
             return "%s:Obs:spendable-list:v2-pool-spent" % kind
+    if ev["op"] == "Obs" and set(what) <= {"balance-spendable", "balance-confirmed", "balance-immature"} and want.get("lag", 0) > 0 \
+            and ev["conf"] == want.get("confm") and ev["sp"] == want.get("spm"):
+        return "%s:Obs:balance-maturity-under-lag" % kind
     if ev["op"] == "Fund" and "dup-input" in what:
         return "%s:Fund:dup-input" % kind + (":ineligible" if "ineligible" in what else "")
     return "%s:%s:%s" % (kind, ev["op"], "+".join(what))
@@ -290,6 +294,8 @@ def validate_file(wd, path, tag, verdict, kind):
         sig = "%s:%s:%s:%s" % (kind, ev.get("op"), ev.get("r", "-"), r.violated or "unexplained")
         if ev.get("op") == "Fund" and ev.get("r") == "ok" and not ev.get("cons", True):
             sig = "%s:Fund:not-conserved" % kind
+        if ev.get("badbasis"):
+            sig = "%s:%s:basis-not-wallet-tip" % (kind, ev.get("op"))
         if ev.get("op") == "Bcast" and ev.get("r") == "rej" and ev.get("misordered"):
             sig = "%s:Bcast:parent-order" % kind
         verdict.add({"sig": sig,
@@ -530,7 +536,7 @@ def selftest():
     # named deviations must violate the invariants in TLC
     ok3 = True
     for cfg, inv in (("WalletFund_dev_views.cfg", "ViewsAgree"), ("WalletFund_dev_dup.cfg", "Conservation"),
-                     ("WalletFund_dev_redist.cfg", "NoOrphanLocks")):
+                     ("WalletFund_dev_redist.cfg", "NoOrphanLocks"), ("WalletFund_dev_lagbal.cfg", "ViewsAgree")):
         x = vlib.run_tlc(wd, "MCWalletFund", cfg, workers=4, timeout=600)
         good3 = x.exit != 0 and x.violated == inv
         log("selftest 3 (%s: TLC reports %s violated: %s): %s" % (cfg, inv, x.violated, "ok" if good3 else "FAILED"))
